@@ -482,6 +482,86 @@ theorem natOfLE_injective_of_length_eq {xs ys : Bytes} (hl : xs.length = ys.leng
 theorem natOfBE_injective_of_length_eq {xs ys : Bytes} (hl : xs.length = ys.length)
     (h : natOfBE xs = natOfBE ys) : xs = ys := Strand.natOfBE_injective_of_length_eq hl h
 
+/-! ### 5b. domain separation between transcript KINDS: whatever the values, a transcript of one kind is
+never the byte string of another kind (different key sets), so a challenge computed for one protocol is
+never the hash input of another -/
+section kinds
+variable (o)
+
+/-- the seven transcript kinds of the library have pairwise different key sets -/
+theorem transcript_key_sets_pairwise_distinct :
+    [schnorrKeys, cpKeys, ctxLabelKeys, ctxMhrKeys, usPrefixKeys, usInputKeys, shuffleKeys].Pairwise
+      (fun a b => ¬ a.Perm b) := by decide
+
+/-- a Schnorr transcript is never a Chaum-Pedersen transcript -/
+theorem schnorrBytes_ne_cpBytes (g y t g1 g2 y1 y2 t1 t2 : E) (ctx ctx' : Bytes)
+    (hs : AllShort (schnorrItems o g y t ctx)) (hs' : AllShort (cpItems o g1 g2 y1 y2 t1 t2 ctx')) :
+    schnorrBytes o g y t ctx ≠ cpBytes o g1 g2 y1 y2 t1 t2 ctx' := by
+  rw [schnorrBytes_eq_zip, cpBytes_eq_zip]
+  exact encMap_zip_ne_of_keys schnorrKeys_good cpKeys_good rfl rfl hs hs' (by decide)
+
+/-- …nor the prefix the per-ciphertext shuffle challenges are derived from (same number of entries!) -/
+theorem schnorrBytes_ne_usPrefixBytes (g y t : E) (ctx : Bytes) (es eps : List (Ciphertext E))
+    (cs : List E) (l : Bytes) (hs : AllShort (schnorrItems o g y t ctx))
+    (hs' : AllShort (usPrefixItems o es eps cs l)) :
+    schnorrBytes o g y t ctx ≠ usPrefixBytes o es eps cs l := by
+  rw [schnorrBytes_eq_zip, usPrefixBytes_eq_zip]
+  exact encMap_zip_ne_of_keys schnorrKeys_good usPrefixKeys_good rfl rfl hs hs' (by decide)
+
+theorem schnorrBytes_ne_shuffleChallengeBytes (g y t : E) (ctx : Bytes) (es eps : List (Ciphertext E))
+    (cs chs : List E) (pk : E) (tc : Commitments E) (l : Bytes)
+    (hs : AllShort (schnorrItems o g y t ctx)) (hs' : AllShort (shuffleItems o es eps cs chs pk tc l)) :
+    schnorrBytes o g y t ctx ≠ shuffleChallengeBytes o es eps cs chs pk tc l := by
+  rw [schnorrBytes_eq_zip, shuffleChallengeBytes_eq_zip]
+  exact encMap_zip_ne_of_keys schnorrKeys_good shuffleKeys_good rfl rfl hs hs' (by decide)
+
+theorem cpBytes_ne_usPrefixBytes (g1 g2 y1 y2 t1 t2 : E) (ctx : Bytes) (es eps : List (Ciphertext E))
+    (cs : List E) (l : Bytes) (hs : AllShort (cpItems o g1 g2 y1 y2 t1 t2 ctx))
+    (hs' : AllShort (usPrefixItems o es eps cs l)) :
+    cpBytes o g1 g2 y1 y2 t1 t2 ctx ≠ usPrefixBytes o es eps cs l := by
+  rw [cpBytes_eq_zip, usPrefixBytes_eq_zip]
+  exact encMap_zip_ne_of_keys cpKeys_good usPrefixKeys_good rfl rfl hs hs' (by decide)
+
+theorem cpBytes_ne_shuffleChallengeBytes (g1 g2 y1 y2 t1 t2 : E) (ctx : Bytes)
+    (es eps : List (Ciphertext E)) (cs chs : List E) (pk : E) (tc : Commitments E) (l : Bytes)
+    (hs : AllShort (cpItems o g1 g2 y1 y2 t1 t2 ctx))
+    (hs' : AllShort (shuffleItems o es eps cs chs pk tc l)) :
+    cpBytes o g1 g2 y1 y2 t1 t2 ctx ≠ shuffleChallengeBytes o es eps cs chs pk tc l := by
+  rw [cpBytes_eq_zip, shuffleChallengeBytes_eq_zip]
+  exact encMap_zip_ne_of_keys cpKeys_good shuffleKeys_good rfl rfl hs hs' (by decide)
+
+theorem usPrefixBytes_ne_shuffleChallengeBytes (es eps es' eps' : List (Ciphertext E))
+    (cs cs' chs : List E) (pk : E) (tc : Commitments E) (l l' : Bytes)
+    (hs : AllShort (usPrefixItems o es eps cs l))
+    (hs' : AllShort (shuffleItems o es' eps' cs' chs pk tc l')) :
+    usPrefixBytes o es eps cs l ≠ shuffleChallengeBytes o es' eps' cs' chs pk tc l' := by
+  rw [usPrefixBytes_eq_zip, shuffleChallengeBytes_eq_zip]
+  exact encMap_zip_ne_of_keys usPrefixKeys_good shuffleKeys_good rfl rfl hs hs' (by decide)
+
+/-- the per-position input `{prefix, counter}` collides with none of the statement transcripts -/
+theorem usInput_ne_schnorrBytes (h : Bytes) (i : Nat) (g y t : E) (ctx : Bytes) (hh : Short h)
+    (hs : AllShort (schnorrItems o g y t ctx)) : usInput h i ≠ schnorrBytes o g y t ctx := by
+  rw [usInput_eq_zip, schnorrBytes_eq_zip]
+  refine encMap_zip_ne_of_keys usInputKeys_good schnorrKeys_good rfl rfl ?_ hs (by decide)
+  intro b hb
+  simp only [List.mem_cons, List.mem_nil_iff, or_false] at hb
+  rcases hb with rfl | rfl
+  · exact hh
+  · unfold Short; rw [u64le_length]; decide
+
+theorem usInput_ne_cpBytes (h : Bytes) (i : Nat) (g1 g2 y1 y2 t1 t2 : E) (ctx : Bytes) (hh : Short h)
+    (hs : AllShort (cpItems o g1 g2 y1 y2 t1 t2 ctx)) :
+    usInput h i ≠ cpBytes o g1 g2 y1 y2 t1 t2 ctx := by
+  rw [usInput_eq_zip, cpBytes_eq_zip]
+  refine encMap_zip_ne_of_keys usInputKeys_good cpKeys_good rfl rfl ?_ hs (by decide)
+  intro b hb
+  simp only [List.mem_cons, List.mem_nil_iff, or_false] at hb
+  rcases hb with rfl | rfl
+  · exact hh
+  · unfold Short; rw [u64le_length]; decide
+
+end kinds
+
 /-! ### non-vacuity -/
 section examples
 open Strand.C15
